@@ -47,7 +47,13 @@ def _chunk(args):
                               'where': 'the batcher machine ran out of fuel on this program (`programDone` is false)'})
             continue
         if tie:
-            out.count('ties-not-judged')
+            # not compared with the model (it does not order an input and an internal event of the same instant), but
+            # what does not depend on that order is still judged
+            out.count('ties-judged-by-order-free-monitors-only')
+            for (p, kind, detail) in B.monitors(cfg, ins, evs, {prop}, timing=False):
+                out.concrete.append({'case': case, 'what': f'{kind}: {detail} (an input coincided with an internal '
+                                                            f'event: judged by the order-free monitors only)',
+                                     'observed': B.canon(evs), 'signature': {'kind': kind}})
             continue
         for (p, kind, detail) in B.monitors(cfg, ins, evs, {prop}):
             out.concrete.append({'case': case, 'what': f'{kind}: {detail}', 'observed': B.canon(evs),
@@ -147,7 +153,30 @@ def _chunk_cleanup(args):
     return out
 
 
+def _chunk_race(args):
+    """C10: arrivals coinciding with batch ends, a few loop iterations apart (order-free monitors only)."""
+    prop, seed0, count = args
+    logging.disable(logging.CRITICAL)
+    out = Outcome()
+    for i in range(count):
+        rng = random.Random((seed0 << 20) + 700000 + i)
+        cfg, ins, plan = B.gen_race(rng)
+        case = {'race': True, 'cfg': cfg, 'ins': ins, 'plan': plan}
+        mark(case)
+        out.evaluations += 1
+        evs = B.run_real(cfg, ins, plan)
+        for (p, kind, detail) in B.monitors(cfg, ins, evs, {prop}, timing=False):
+            out.concrete.append({'case': case, 'what': f'{kind}: {detail}', 'observed': B.canon(evs),
+                                 'signature': {'kind': kind}})
+        out.traces_validated += 1
+        out.fingerprints.add(fingerprint(case))
+        out.count('race:programs')
+    return out
+
+
 def _dispatch(args):
+    if args[0] == 'race':
+        return _chunk_race(args[1:])
     if args[0] == 'cleanup':
         return _chunk_cleanup(args[1:])
     if args[0] == 'chain':
@@ -169,6 +198,7 @@ def make(prop, flavor, quick_n, thorough_n):
             chunks += [('variant', prop, ctx.seed * 1000 + k, 100 if ctx.quick else 3000) for k in range(workers)]
         if prop == 'C10':
             chunks += [('cleanup', prop, ctx.seed * 1000 + k, 100 if ctx.quick else 3000) for k in range(workers)]
+            chunks += [('race', prop, ctx.seed * 1000 + k, 150 if ctx.quick else 4000) for k in range(workers)]
         return run_chunks(_dispatch, chunks, workers, limit_s=60 if ctx.quick else 900)
 
     def search(ctx, outcome):
@@ -189,6 +219,11 @@ def make(prop, flavor, quick_n, thorough_n):
             bad = B.monitor_chain(case['cfg'], case['callers'], res, batches)
             return {'case': case, 'requests': {str(k): v for k, v in res.items()}, 'batches': batches,
                     'monitor': bad, 'fails': bool(bad)}
+        if case.get('race'):
+            ins = [tuple(i) for i in case['ins']]
+            evs = B.run_real(case['cfg'], ins, case['plan'])
+            bad = B.monitors(case['cfg'], ins, evs, {prop}, timing=False)
+            return {'case': case, 'events': B.canon(evs), 'monitor': [list(map(str, b)) for b in bad], 'fails': bool(bad)}
         if case.get('cleanup'):
             ins = [tuple(i) for i in case['ins']]
             evs = B.run_real(case['cfg'], ins, case['plan'])
